@@ -237,9 +237,10 @@ PUBLISH = ('TopicCache::add_change', 'TopicCache::mark_reliably_received_before'
 
 
 def rule_13_3(rep, fx):
-    rep.rule('R13.3', 'publish-then-notify: in rtps::Reader every path from a topic-cache publication (add_change, or '
-                      'mark_reliably_received_before returning true) to the return of the outermost Reader entry point '
-                      'passes notify_cache_change(); notify_cache_change performs all three notifications')
+    rep.rule('R13.3', 'publish-then-notify: in rtps::Reader every path from a topic-cache publication (add_change, or mark_reliably_received_before) to the return of the '
+                      'outermost Reader entry point passes notify_cache_change(), unless this Reader\'s own writer proxy did not advance (all_ackable_before() after the update not '
+                      'greater than before it); the return value of the marker update alone does not exempt, because the marker is shared by all Readers of the topic; '
+                      'notify_cache_change performs all three notifications')
     bodies = [b for b in fx.bodies if b.key.startswith('rtps::reader::Reader::') or b.key.startswith('rtps::reader::')]
     bykey = {b.key: b for b in bodies}
     unnotified = {}   # key -> [(bb, why)]
@@ -282,9 +283,15 @@ def rule_13_3(rep, fx):
         for bb, why, is_marker in ev:
             exempt = []
             if is_marker:
+                # The marker is shared by all Readers of the topic: its own `false` ("someone moved it already") says nothing about whether *this* Reader's DataReader
+                # has something new. What exempts a path from notifying is that this Reader's own writer proxy did not advance: the not-greater edge of a comparison
+                # of all_ackable_before() taken after the update with the value taken before it (two different call sites of the getter).
                 for sbb, tg, cond, lab in switch_edges(b, fx, og):
-                    if lab is False and term_has(cond, lambda x: x[0] == 'call' and len(x) > 3 and x[3] == bb):
-                        exempt.append((sbb, tg))
+                    if cond[0] == 'call' and cond[1].endswith(('::gt', '::lt', '::ne')) and lab is False and len(cond[2]) == 2:
+                        sites = set()
+                        term_has(cond, lambda x: x[0] == 'call' and x[1].endswith('all_ackable_before') and len(x) > 3 and sites.add(x[3]) is None and False)
+                        if len(sites) >= 2:
+                            exempt.append((sbb, tg))
             for r in rets:
                 if not P.every_path_passes((bb, 'term'), r, via_pos=notifies, via_edges=exempt):
                     out.append((bb, why))
